@@ -262,6 +262,9 @@ class Speed(Spec):
         if not self.full(p - 1):
             return [], lambda cell: {M, U}
         dt = Fr(self.t[p] - self.t[p - 1])
+        if dt == 0:
+            # outside C10's time axes; C02's converse still applies: both fixes are present, so never MISSING
+            return [], lambda cell: {G, S, F, U}
         d = X.abs_(X.fn('geodist', *_geo_args(p - 1, p)))
         return severity_spec(X.cmp('gt', d, X.num(self.f * dt)), X.cmp('gt', d, X.num(self.s * dt)))
 
